@@ -1,0 +1,29 @@
+//! Re-exports for the external verification harness. Compiled only with
+//! `RUSTFLAGS="--cfg sccache_verif"`; adds no behaviour.
+#![allow(unused_imports)]
+
+pub mod cache {
+    pub use crate::cache::*;
+}
+pub mod compiler {
+    pub use crate::compiler::verif::*;
+    pub use crate::compiler::*;
+}
+pub mod protocol {
+    pub use crate::protocol::*;
+}
+pub mod mock_command {
+    pub use crate::mock_command::*;
+}
+pub mod jobserver {
+    pub use crate::jobserver::*;
+}
+pub mod commands {
+    pub use crate::commands::*;
+}
+pub mod client {
+    pub use crate::client::*;
+}
+pub mod net {
+    pub use crate::net::*;
+}
